@@ -25,6 +25,8 @@ type c04Case struct {
 	// AllOffsets=false restricts SeekNext start offsets of files > 600 bytes to
 	// windows around record boundaries and every 13th offset.
 	AllOffsets bool `json:"all_offsets"`
+	// Sizes: records whose lengths sit on both sides of the variable-length-integer boundaries (indexes into c04SizeRecs)
+	Sizes []int `json:"sizes,omitempty"`
 	// Legacy: a multi-record compatibility fixture of the repository (below recordio/test_files), 255 records, record i =
 	// the bytes 0..i-1 (as its generator documents)
 	Legacy string `json:"legacy,omitempty"`
@@ -146,6 +148,14 @@ func (c c04) Run(ctx *core.Ctx) error {
 			cases = append(cases, core.J(c04Case{Prog: p, Cfgs: dc, AllOffsets: true}))
 		}
 	}
+	// lengths around the varint boundaries 2^7 and 2^14 (raw and, for incompressible payloads, also compressed lengths)
+	nsz := len(c04SizeRecs())
+	for i := 0; i < nsz; i++ {
+		cases = append(cases, core.J(c04Case{Sizes: []int{i}}))
+		cases = append(cases, core.J(c04Case{Sizes: []int{0, i, 1}}))
+		cases = append(cases, core.J(c04Case{Sizes: []int{i, i}}))
+	}
+	ctx.Ev.Bounds["varint_boundary_record_lengths"] = []int{126, 127, 128, 129, 16382, 16383, 16384, 16385}
 	// record files written by the earlier format versions (and the current one as a control), read through every path
 	var legacy []string
 	for _, v := range []string{"v1", "v2", "v3", "v4"} {
@@ -179,6 +189,18 @@ func (c c04) Case(w *core.WCtx, payload json.RawMessage) core.Result {
 		return c04Legacy(cs)
 	}
 	alpha := rioAlphabet()
+	if cs.Sizes != nil {
+		alpha = c04SizeRecs()
+		cs.Prog = nil
+		for _, i := range cs.Sizes {
+			cs.Prog = append(cs.Prog, wop{"W", i})
+		}
+		cs.AllOffsets = false
+		cs.Cfgs = nil
+		for comp := 0; comp < 4; comp++ {
+			cs.Cfgs = append(cs.Cfgs, rioCfg{Comp: comp, WBuf: 4096, RBuf: 4096}, rioCfg{Comp: comp, WBuf: 16, RBuf: 5})
+		}
+	}
 	progStr := func() string {
 		var s []string
 		for _, o := range cs.Prog {
@@ -193,7 +215,7 @@ func (c c04) Case(w *core.WCtx, payload json.RawMessage) core.Result {
 	viol := func(cfg rioCfg, sig, f string, a ...any) {
 		if len(r.Viol) < 12 {
 			r.Viol = append(r.Viol, core.Violation{Sig: sig, Desc: fmt.Sprintf("[%s] cfg=%+v: %s", progStr, cfg, fmt.Sprintf(f, a...)),
-				Case: core.J(c04Case{Prog: cs.Prog, Cfgs: []rioCfg{cfg}, AllOffsets: cs.AllOffsets})})
+				Case: core.J(c04Case{Prog: cs.Prog, Cfgs: []rioCfg{cfg}, AllOffsets: cs.AllOffsets, Sizes: cs.Sizes})})
 		}
 	}
 	for _, cfg := range cs.Cfgs {
@@ -319,6 +341,15 @@ func seekSig(path string, o uint64, m rioModel, next int, err error) string {
 		}
 	}
 	return ""
+}
+
+// c04SizeRecs: index 0 and 1 are small neighbours, the rest sit around the varint boundaries.
+func c04SizeRecs() []rioRec {
+	out := []rioRec{{"a", []byte("a")}, {"nil", nil}}
+	for _, n := range []int{126, 127, 128, 129, 16382, 16383, 16384, 16385} {
+		out = append(out, rioRec{fmt.Sprintf("i%d", n), incompressible(n, uint64(n))})
+	}
+	return out
 }
 
 // c04Legacy reads a 255-record fixture of an earlier format version through every reader and access path.
